@@ -38,11 +38,24 @@ STYLE_VALUES = {
 STYLE_NAMES = sorted(STYLE_VALUES)
 
 
+# Per document, decided from the run's PRNG at the start of ttml(): a "careful authoring tool" writes only
+# well-formed values and intervals that nest, so that the deep paths (style computation, animation, layout)
+# are exercised with everything active; the other documents mix in unusual and wrong values.
+_MODE = {"careful": False}
+
+
+def _val(rng, n):
+  vals = STYLE_VALUES[n]
+  return rng.choice(vals[:max(2, len(vals) // 2)] if _MODE["careful"] else vals)
+
+
 def esc(s):
   return s.replace("&", "&amp;").replace("<", "&lt;").replace('"', "&quot;")
 
 
-def _time(rng, frames_ok=True):
+def _time(rng, frames_ok=True, late=False):
+  if _MODE["careful"]:
+    return rng.choice(["4s", "5s", "7.5s", "10s", "00:00:08.000"] if late else ["0s", "1s", "2s", "3s", "00:00:01.500"])
   r = rng.random()
   if r < 0.3:
     return "%02d:%02d:%02d.%03d" % (0, rng.randint(0, 1), rng.randint(0, 59), rng.randint(0, 999))
@@ -60,8 +73,8 @@ def _timing(rng, p=0.6):
   if rng.random() < p:
     out.append('begin="%s"' % _time(rng))
   if rng.random() < p:
-    out.append('%s="%s"' % (rng.choice(["end", "end", "dur"]), _time(rng)))
-  if rng.random() < 0.05:
+    out.append('%s="%s"' % (rng.choice(["end", "end", "dur"]), _time(rng, late=True)))
+  if rng.random() < (0.05 if not _MODE["careful"] else 0):
     out.append('timeContainer="%s"' % rng.choice(["par", "seq", "x"]))
   return out
 
@@ -73,21 +86,38 @@ def _styles(rng, k=None, allow_ruby=False):
   for n in names:
     if n == "tts:ruby" and not allow_ruby:
       continue
-    vals = STYLE_VALUES[n]
-    out.append('%s="%s"' % (n, esc(rng.choice(vals))))
+    out.append('%s="%s"' % (n, esc(_val(rng, n))))
   return out
 
 
 def _attrs(lst):
-  return (" " + " ".join(lst)) if lst else ""
+  seen, out = set(), []
+  for a in lst:
+    n = a.split("=", 1)[0]
+    if n not in seen:  # an attribute name twice is not well-formed XML
+      seen.add(n)
+      out.append(a)
+  return (" " + " ".join(out)) if out else ""
 
 
-def _set(rng):
-  n = rng.choice(STYLE_NAMES)
-  a = ['%s="%s"' % (n, esc(rng.choice(STYLE_VALUES[n])))] if n != "tts:ruby" else []
+LAYOUT_STYLES = ["tts:origin", "tts:position", "tts:extent", "tts:padding", "tts:displayAlign", "tts:writingMode", "tts:showBackground",
+                 "tts:overflow", "tts:opacity", "tts:backgroundColor", "tts:display", "tts:visibility", "tts:fontSize", "tts:lineHeight"]
+
+
+GEOMETRY_STYLES = ["tts:origin", "tts:position", "tts:extent", "tts:padding", "tts:fontSize", "tts:lineHeight"]  # computed from one another
+
+
+def _layout_styles(rng, k):
+  names = rng.sample(GEOMETRY_STYLES, min(k, 2)) + rng.sample(LAYOUT_STYLES, k)
+  return ['%s="%s"' % (n, esc(_val(rng, n))) for n in names]
+
+
+def _set(rng, layout=False):
+  n = rng.choice(STYLE_NAMES if not layout or rng.random() < 0.3 else GEOMETRY_STYLES if rng.random() < 0.6 else LAYOUT_STYLES)
+  a = ['%s="%s"' % (n, esc(_val(rng, n)))] if n != "tts:ruby" else []
   if rng.random() < 0.1:
     a += _styles(rng, 1)
-  return "<set%s/>" % _attrs(_timing(rng, 0.8) + a)
+  return "<set%s/>" % _attrs(_timing(rng, 0.3 if layout and rng.random() < 0.5 else 0.8) + a)
 
 
 TEXTS = ["Hello", " world ", "\n   ", "a  b", "漢字", "&amp;", "x\ty", "", " ", "Line one", "&#x2028;", "é"]
@@ -169,6 +199,7 @@ def _common(rng, ctx):
 
 def ttml(rng):
   ctx = {"regions": [], "styles": []}
+  _MODE["careful"] = rng.random() < 0.4
   tt_attrs = [NS]
   if rng.random() < 0.7:
     tt_attrs.append('xml:lang="%s"' % rng.choice(["en", "", "fr"]))
@@ -179,7 +210,7 @@ def ttml(rng):
                      ("tts:extent", ["1920px 1080px", "640px 480px", "auto", "50% 50%", "0px 0px", "x", "100px", "100px 100px 100px", "1e3px 1e3px", "1.5px 2px"]), ("ttp:profile", ["http://www.w3.org/ns/ttml/profile/imsc1/text"]),
                      ("xml:space", ["preserve", "default"]), ("ttp:dropMode", ["dropNTSC", "nonDrop"])):
     if rng.random() < 0.2:
-      tt_attrs.append('%s="%s"' % (name, rng.choice(vals)))
+      tt_attrs.append('%s="%s"' % (name, rng.choice(vals[:2] if _MODE["careful"] else vals)))
   head = []
   if rng.random() < 0.8:
     sty = []
@@ -192,19 +223,25 @@ def ttml(rng):
       sty.append("<style%s/>" % _attrs(a))
     for _ in range(rng.choice([0, 0, 0, 1, 2])):
       n = rng.choice(STYLE_NAMES)
-      sty.append("<initial%s/>" % _attrs(['%s="%s"' % (n, esc(rng.choice(STYLE_VALUES[n])))]))
+      sty.append("<initial%s/>" % _attrs(['%s="%s"' % (n, esc(_val(rng, n)))]))
     lay = []
     for i in range(rng.choice([0, 1, 1, 2, 3])):
       rid = rng.choice(["r%d" % i, "r%d" % i, "r0"])
-      a = ['xml:id="%s"' % rid] + _timing(rng, 0.2) + _styles(rng, rng.randint(0, 5))
+      if rng.random() < 0.6:
+        a = ['xml:id="%s"' % rid] + _timing(rng, 0.2) + _styles(rng, rng.randint(0, 5))
+      else:
+        # what authoring tools mostly put on regions: placement and background
+        a = ['xml:id="%s"' % rid] + _timing(rng, 0.1) + _layout_styles(rng, rng.randint(1, 3)) + _styles(rng, rng.choice([0, 0, 1]))
       if ctx["styles"] and rng.random() < 0.3:
         a.append('style="%s"' % rng.choice(ctx["styles"]))
       ctx["regions"].append(rid)
       inner = ""
       if rng.random() < 0.25:
         inner += "<style%s/>" % _attrs(_styles(rng, 2))  # nested styling
-      if rng.random() < 0.25:
-        inner += _set(rng)
+      if rng.random() < 0.3:
+        inner += _set(rng, layout=True)
+        if rng.random() < 0.3:
+          inner += _set(rng, layout=True)
       lay.append("<region%s>%s</region>" % (_attrs(a), inner) if inner else "<region%s/>" % _attrs(a))
     head.append("<head>")
     if rng.random() < 0.1:
